@@ -67,6 +67,7 @@ class Sentence(object):
         self.root = None
         stack = []
         nodes = []
+        restricted_next = False
         for it in out:
             tag = it[0]
             if tag == '(':
@@ -83,8 +84,12 @@ class Sentence(object):
                 n = stack.pop()
             elif tag == '-':
                 stack[-1].children.append(None)
+            elif tag == 'R':
+                restricted_next = True
             elif tag == 'T':
                 t = Tok(it[1], it[2])
+                t.nobreak = restricted_next
+                restricted_next = False
                 t.idx = len(self.tokens)
                 t.owner = stack[-1] if stack else None
                 self.tokens.append(t)
